@@ -64,6 +64,15 @@ def make_device(d, rng):
 
 
 def _scripted(d, kw):
+    rp = d.pop("restrict_puts", None)
+    dev = _scripted0(d, kw)
+    if rp:
+        dev.restrict_rng = random.Random(rp.get("seed", 0))
+        dev.restrict_p = rp.get("p", 0.3)
+    return dev
+
+
+def _scripted0(d, kw):
     return devices.Scripted(table=d.pop("table", None), model=d.pop("model", "RX-V"), version=d.pop("version", "1.00/2.00"),
                             avail=d.pop("avail", {}), echo_put=d.pop("echo_put", True), **kw)
 
@@ -91,6 +100,9 @@ class ConnSession:
         wl = self.spec.get("write_fault_late")
         if wl:
             port.write_fault_late = (wl["n"], wl.get("exc", "SerialException"))
+        wo = self.spec.get("write_fault_once")
+        if wo:
+            port.write_fault_once = (wo["n"], wo.get("exc", "SerialException"))
         sw = self.spec.get("slow_writes")
         if sw:
             port.write_delay = lambda n, _sw=sw: _sw.get(str(n), 0)
